@@ -751,7 +751,7 @@ impl System for Sys {
                 let mut vs = vec![];
                 if auth == Some(false) && changed {
                     vs.push(Violation::new(
-                        format!("C07/{:?}/{}-changed-by-unauthorised/{}-as-{role}", self.kind().unwrap(), what, act.name()),
+                        format!("C07/{:?}/{}-changed-by-unauthorised/{}", self.kind().unwrap(), what, act.name()),
                         format!(
                             "{} ({role}, referring to identity v{}) is not authorised for `{}` by the statement's role table, yet the {what} changed (op result: {res:?}): {} -> {}",
                             ACTORS[*by as usize],
@@ -803,9 +803,10 @@ fn main() {
     init_env();
     let ctx = Ctx::from_env("C07", "model_checking");
     let thorough = ctx.tier == mcx::Tier::Thorough;
-    // Depth counts the Start event. quick: D=4 actions, any number of unauthorised ones;
-    // thorough: D=6 actions, at most 3 unauthorised.
-    let (depth, devs, max_new, stride) = if thorough { (7usize, 3usize, 2usize, 200u64) } else { (5, 4, 1, 0) };
+    // Depth counts the Start event. quick: D=4 actions, any number of unauthorised ones, at most one new
+    // object; thorough: D=5 actions, at most 3 unauthorised, at most one new object (measured: 3.6*10^7
+    // transitions; the design's D=6 would be ~5*10^8, and two new objects at D=4 already 4.7*10^7).
+    let (depth, devs, max_new, stride) = if thorough { (6usize, 3usize, 1usize, 20011u64) } else { (5, 4, 1, 0) };
     let replaying = ctx.replay.is_some();
     if FIX.set(build_fixture(if replaying { 64 } else { max_new }, stride)).is_err() {
         unreachable!();
@@ -822,7 +823,7 @@ fn main() {
         ctx.finish_replay(vs);
     }
 
-    let mut res = explore::explore("C07", Sys::new, Bounds::new(depth, devs).wall_secs(if thorough { 900 } else { 120 }));
+    let mut res = explore::explore("C07", Sys::new, Bounds::new(depth, devs).wall_secs(if thorough { 2400 } else { 300 }));
 
     let mut todo: BTreeSet<String> = std::mem::take(&mut *STRIDE_SET.lock().unwrap());
     let stride_n = todo.len();
